@@ -19,15 +19,17 @@ bool rowAllowed(const DetailedPlacement &pl, int c, int row) {
 DetailedPlacement DetailedPlacement::fromIspdCircuit(const Circuit &circuit) {
   // Represent fixed cells with -1 width so they are not considered
   int rowHeight = circuit.rowHeight();
-  std::vector<int> widths = circuit.cellWidth_;
+  std::vector<int> widths(circuit.nbCells());
   std::vector<Rectangle> obstacles;
   for (int c = 0; c < circuit.nbCells(); ++c) {
+    // Use the placed dimensions, which depend on the orientation
+    widths[c] = circuit.placedWidth(c);
     if (circuit.cellIsFixed_[c]) {
       // Fixed cells are handled by computeRows according to their obstruction flag
       widths[c] = -1;
       continue;
     }
-    if (circuit.cellHeight_[c] != rowHeight) {
+    if (circuit.placedHeight(c) != rowHeight) {
       widths[c] = -1;
       Rectangle pl = circuit.placement(c);
       obstacles.push_back(pl);
@@ -55,7 +57,7 @@ DetailedPlacement DetailedPlacement::fromIspdCircuit(const Circuit &circuit,
       continue;
     }
     Rectangle pl = circuit.placement(c);
-    if (circuit.cellHeight_[c] != rowHeight) {
+    if (circuit.placedHeight(c) != rowHeight) {
       obstacles.push_back(pl);
     } else if (region.contains(pl)) {
       cellIndex.push_back(c);
@@ -95,7 +97,7 @@ DetailedPlacement DetailedPlacement::fromIspdCircuit(const Circuit &circuit,
   std::vector<CellRowPolarity> cellPolarity(cellIndex.size());
   for (size_t i = 0; i < cellIndex.size(); ++i) {
     int c = cellIndex[i];
-    widths[i] = circuit.cellWidth()[c];
+    widths[i] = circuit.placedWidth(c);
     cellX[i] = circuit.cellX()[c];
     cellY[i] = circuit.cellY()[c];
     cellOrientation[i] = circuit.cellOrientation()[c];
